@@ -117,7 +117,7 @@ var cellBools = []string{"true", "false", "TRUE", "False", "t", "F", "T"}
 var cellTexts = []string{"a", "abc", "", " ", " a", "a ", "a b", "x,y", "a;b", "say \"hi\"", "\"", "\"\"", "\"start", "end\"", "\"both\"", "line\nbreak", "\n", "\nx", "x\n", "a\n\"b\",c\n", "é", "日本", "\xff\xfe", "tab\there", "1x", "true1", "null", "'q'", "a\"\"b", ",", ",,", "\",\"", "#", "\\", "\\\"", "a|b", "\t"}
 
 func longCell(rng *rand.Rand) string {
-	base := []int{1000, 1015, 1016, 1017, 1018, 1019, 1020, 1021, 1022, 1023, 1024, 1025, 1030, 2040, 2047, 2048, 2049, 2060, 4090, 4099, 4110}[rng.Intn(21)]
+	base := []int{1000, 1015, 1016, 1017, 1018, 1019, 1020, 1021, 1022, 1023, 1024, 1025, 1030, 2040, 2047, 2048, 2049, 2060, 4090, 4099, 4110, 5000, 8190, 8199, 8210, 9000}[rng.Intn(26)]
 	var sb strings.Builder
 	for sb.Len() < base {
 		switch rng.Intn(12) {
@@ -154,10 +154,10 @@ func genDoc(rng *rand.Rand, class string) *csvDoc {
 	case "tiny":
 		ncols, nrows = 1+rng.Intn(3), rng.Intn(4)
 	case "long":
-		ncols, nrows = 1+rng.Intn(3), 1+rng.Intn(4)
+		ncols, nrows = 1+rng.Intn(3), 1+rng.Intn(6)
 	case "manyrows":
-		ncols, nrows = 1+rng.Intn(2), 1001+rng.Intn(1200)
-		d.hint = 2001 + rng.Intn(3000)
+		ncols, nrows = 1+rng.Intn(3), 1001+rng.Intn(2500)
+		d.hint = 2001 + rng.Intn(1800) // sometimes below, sometimes above the real row count
 	}
 	d.emptyNull = rng.Intn(2) == 0
 	// column classes
